@@ -173,6 +173,7 @@ RuleHolds(dag, ar, i) ==
     [] op \in {"witness", "fail"} -> TRUE
     [] HasLeafTy(op) -> me = LeafTy(op)
     [] op = "leaf" -> me = <<Uz(dag[i][4][1]), Uz(dag[i][4][2])>>
+    [] op = "word" -> me[1] = One /\ \E n \in 0..12 : W(me[2]) = 2 ^ n /\ me[2] = TwoN(n)
     [] op = "injl" -> me[1] = L[1] /\ IsSumT(me[2]) /\ me[2][2] = L[2]
     [] op = "injr" -> me[1] = L[1] /\ IsSumT(me[2]) /\ me[2][3] = L[2]
     [] op = "take" -> IsProdT(me[1]) /\ me[1][2] = L[1] /\ me[2] = L[2]
